@@ -14,6 +14,7 @@ def text(fn, e):
 def run(prog, chk):
     drain_before_next_read(prog, chk)
     blocking_reader_table(prog, chk)
+    queue_order(prog, chk)
     _run(prog, chk)
 
 
@@ -342,3 +343,46 @@ def blocking_reader_table(prog, chk):
                "expected recv(offset, wanted) = %s, %d bytes reported, %s; source: recv calls %s, reported %s, status %s"
                % (want_calls, pos, "KSI_OK" if complete else "an error", got_calls, cnt[-1:], hex(q.ret) if isinstance(q.ret, int) else q.ret),
                loc=fn.loc(), fn=fn)
+
+
+def queue_order(prog, chk):
+    """The response queue between the stream reader and the upper layer is first-in first-out: dispatch appends extracted PDUs at the end,
+    getResponse takes index 0 and reports how many are left."""
+    from ksirules.interp import TOP, Interp, Ptr, succeed_model
+    chk.rule("C14.fifo", "extracted PDUs are handed to the upper layer in stream order (append at the end, take from the front)", floor=3)
+    fn = prog.fn("getResponse", "net_tcp_async.c")
+    cp, rp, lp = [p["n"] for p in fn.params]
+    for qlen in (0, 1, 3):
+        state = {"items": [Ptr("PDU%d" % k) for k in range(qlen)]}
+
+        def length(I, p, node, args):
+            return len(state["items"])
+
+        def remove(I, p, node, args):
+            idx = args[1]
+            if not isinstance(idx, int) or not (0 <= idx < len(state["items"])):
+                return 0x10b
+            v = state["items"].pop(idx)
+            I.write(p, lvalue_key(strip(node["a"][2])["e"], I.fn), v)
+            return 0
+        inputs = {cp: Ptr("T"), rp: Ptr("OUT"), lp: Ptr("LEFT"), "T->respQueue": Ptr("Q")}
+        I = Interp(fn, inputs=inputs, call_model=succeed_model(prog, {"KSI_OctetStringList_length": length, "KSI_OctetStringList_remove": remove}),
+                   on_unknown="stop", prog=prog)
+        paths = I.run()
+        chk.paths += len(paths)
+        if len(paths) != 1 or paths[0].undetermined:
+            raise AnalysisBroken("getResponse: evaluation not determined for a queue of %d" % qlen)
+        q = paths[0]
+        out = [t[2] for t in q.stores("*" + rp)]
+        left = [t[2] for t in q.stores("*" + lp)]
+        want_out = [Ptr("PDU0")] if qlen else [0]
+        chk.ob("C14.fifo", "getResponse[queue of %d]" % qlen, q.ret == 0 and out == want_out and left == [max(0, qlen - 1)],
+               "expected the oldest element %s and %d left; source hands out %s, left %s (status %s)" % (want_out, max(0, qlen - 1), out, left, q.ret),
+               loc=fn.loc(), fn=fn)
+    fd = prog.fn("dispatch", "net_tcp_async.c")
+    app = [n for b, i, n in fd.nodes() if n.get("k") == "call" and n.get("fn") == "KSI_OctetStringList_append"]
+    other = [n.get("fn") for b, i, n in fd.nodes() if n.get("k") == "call" and (n.get("fn") or "").startswith("KSI_OctetStringList_") and
+             n.get("fn") not in ("KSI_OctetStringList_append", "KSI_OctetStringList_length")]
+    chk.ob("C14.fifo", "dispatch:append", len(app) == 1 and not other and (lvalue_key(app[0]["a"][0], fd) or "").endswith("->respQueue"),
+           "extracted PDUs enter the response queue only through append (at the end): %s, other queue operations %s" % ([lvalue_key(a["a"][0], fd) for a in app], other),
+           loc=fd.loc(), fn=fd)
